@@ -85,7 +85,7 @@ def _leaf_matrix(rng, T, mode, dtag, values, style, infs=None):
     if style == "full" or dtag == "rgb":
         und = set()
     elif style == "allu":
-        und = set(cells)
+        und = set(cells)            # Int: an all-zero tile - a stored value like any other, the tile must be kept
     elif style == "one":
         und = set(cells) - {rng.choice(cells)}
     elif style == "row":
@@ -114,8 +114,6 @@ def _leaf_matrix(rng, T, mode, dtag, values, style, infs=None):
                 return ({"p": 1, "n": -1}.get(infs) or rng.choice([1, -1]), 0)
             return px
         m = tuple(tuple(swap(px) for px in row) for row in m)
-    if mode == "Int" and all(px == (0,) for row in m for px in row):       # outside the domain: all-zero int leaf
-        return _leaf_matrix(rng, T, mode, dtag, values, "one")
     return m
 
 
@@ -136,9 +134,11 @@ def make_case(rng, cid, T, depth, fmt, dtag, run="serial", pleaf=None, stale_p=0
         values = [-1000, -7, -3, -1, 0]
     elif mode == "Float":
         values = rng.sample(FLOAT_VALUES, rng.randint(2, 5))
+    elif mode == "Int" and (shape == "int-low" or rng.random() < 0.2):
+        values = [1, 1, 2, 3]          # low counts: most 2x2 blocks sum to less than 4, the parent is zero almost everywhere
     elif mode == "Int":
         top = INT_MAX[dtag]
-        values = sorted(set([floor, floor + 1, top] + [rng.randint(floor, top) for _ in range(3)] + [rng.randint(floor, 255)]
+        values = sorted(set([1, floor, floor + 1, top] + [rng.randint(floor, top) for _ in range(3)] + [rng.randint(floor, 255)]
                             + (rng.sample(I4_EXTRA, 3) if dtag == "i4" else [])))
     else:
         values = [0, floor, floor + 1, 255] + [rng.randint(floor, 255) for _ in range(4)]
@@ -160,7 +160,7 @@ def make_case(rng, cid, T, depth, fmt, dtag, run="serial", pleaf=None, stale_p=0
         if fmt == "jpg":
             style = "const"
         else:
-            style = rng.choice(["rand", "rand", "rand", "full", "one", "row"] + (["allu"] if can_u else []))
+            style = rng.choice(["rand", "rand", "rand", "full", "one", "row"] + (["allu"] if (can_u or mode == "Int") else []))
         infs = inf_classes[len(leaves) % len(inf_classes)] if inf_classes else None
         leaves[l] = _leaf_matrix(rng, T, mode, dtag, values, style, infs)
     if shape == "full-then-sparse" and depth >= 1:
@@ -184,6 +184,23 @@ def make_case(rng, cid, T, depth, fmt, dtag, run="serial", pleaf=None, stale_p=0
         for par in pars[1:]:
             for k in kids(par):
                 leaves[k] = _leaf_matrix(rng, T, mode, dtag, values, rng.choice(["rand", "rand", "one", "row"]))
+    if shape == "int-low" and depth >= 1:
+        # integer data has no undefined value: a parent over a lone all-zero leaf, a parent over a lone leaf with a single
+        # count of 1 (its merge is zero everywhere), and ordinary leaves elsewhere - all these parents must exist
+        pars = level(depth - 1)
+        leaves = {}
+        leaves[kids(pars[0])[rng.randrange(4)]] = _leaf_matrix(rng, T, mode, dtag, values, "allu")
+        leaves[kids(pars[1 % len(pars)])[rng.randrange(4)]] = _leaf_matrix(rng, T, mode, dtag, [1], "one")
+        for par in pars[2:]:
+            for k in rng.sample(kids(par), rng.randint(1, 3)):
+                leaves[k] = _leaf_matrix(rng, T, mode, dtag, [1, 2, 3, 40], "rand")
+    if shape == "right-half" and depth >= 2:
+        # only the right half of the pyramid is populated: in walk order empty sub-trees come first, and the parents of the
+        # populated tiles share their rows with positions that were looked at while still empty
+        leaves = {}
+        cand = [l for l in all_leaves if l[1] >= 2 ** (depth - 1)]
+        for l in rng.sample(cand, min(len(cand), rng.randint(5, 8))):
+            leaves[l] = _leaf_matrix(rng, T, mode, dtag, values, "const" if fmt == "jpg" else rng.choice(["rand", "full", "row"]))
     if shape == "one-leaf-per-slot" and depth >= 1:
         # sparse filtered population: every parent of leaves has exactly ONE leaf, in slot 3, 2, 1, 0 in turn (the
         # lower-right child first); with a tile filter whose live set is exactly the populated leaves
@@ -223,7 +240,7 @@ def make_case(rng, cid, T, depth, fmt, dtag, run="serial", pleaf=None, stale_p=0
     if mode == "Float":
         sv = (rng.choice([v for v in FLOAT_VALUES if v not in values] or [4]),)
     elif mode == "Int":
-        sv = (min(INT_MAX[dtag], floor + 3),)
+        sv = (min(INT_MAX[dtag], floor + 77),)
     else:
         sv = (floor + 3, 255, floor + 5, 255)
     scale = 1.0
@@ -454,13 +471,25 @@ def _alarm(_sig, _frm):
     raise _Timeout()
 
 
-def _populate(base, meta, rec):
+def _second_pass(rec):
+    """`twice` runs: the leaves written only before the SECOND cascade - those in rows that hold no leaf of the first pass."""
+    given = rec["given"]
+    rows = sorted(set(g["pos"][2] for g in given))
+    late_rows = set(rows[len(rows) // 2:]) if len(rows) > 1 else set()
+    return set(tuple(g["pos"]) for g in given if g["pos"][2] in late_rows)
+
+
+def _populate(base, meta, rec, pio=None, only=None, skip=None):
     """Write the case's start directory with the real PyramidIO (foreign writer for the `raw` leaves)."""
     from toasty.pyramid import PyramidIO, Pos
     from toasty.image import Image
-    pio = PyramidIO(base, default_format=meta["fmt"])
+    fresh = pio is None
+    if pio is None:
+        pio = PyramidIO(base, default_format=meta["fmt"])
     depth = meta["depth"]
     for g in rec["given"]:
+        if (only is not None and tuple(g["pos"]) not in only) or (skip is not None and tuple(g["pos"]) in skip):
+            continue
         arr = concrete_tile(g["px"], meta, 0)
         pos = Pos(*g["pos"])
         if g["raw"]:
@@ -470,7 +499,7 @@ def _populate(base, meta, rec):
         else:
             pio.write_image(pos, Image.from_array(arr))
     for t in rec["init"]:
-        if t["pos"][0] < depth:
+        if fresh and t["pos"][0] < depth:
             arr = concrete_tile(t["px"], meta, depth - t["pos"][0])
             pio.write_image(Pos(*t["pos"]), Image.from_array(arr))
     return pio
@@ -550,10 +579,26 @@ def replay_case(job):
     old = signal.signal(signal.SIGALRM, _alarm)
     signal.alarm(120)
     try:
-        pio = _populate(base, meta, rec)
-        start, other = scan_tiles(base, fmt)
-        want_start = set(tuple(t["pos"]) for t in rec["init"])
-        if set(start) != want_start:
+        if run.startswith("twice-"):
+            # ONE PyramidIO handle: some leaves, a first (serial) cascade, the remaining leaves (in new rows), then the
+            # cascade under test - the final directory must be that of a single cascade over all the leaves
+            late = _second_pass(rec)
+            pio = _populate(base, meta, rec, skip=late)
+            try:
+                _run_cascade(pio, base, meta, rec, "serial")
+            except _Timeout:
+                raise
+            except BaseException as e:  # noqa
+                add("C02", "V", "raised:serial", "the first cascade raised %r" % (e,))
+                return out, {"tiles": 0}
+            _populate(base, meta, rec, pio=pio, only=late)
+            run = run[len("twice-"):]
+            start = want_start = None
+        else:
+            pio = _populate(base, meta, rec)
+            start, other = scan_tiles(base, fmt)
+            want_start = set(tuple(t["pos"]) for t in rec["init"])
+        if start is not None and set(start) != want_start:
             add("C02", "D", "start-directory", "the start directory holds %s, the spec's writing rule (C15's subject) gives %s"
                 % (sorted(set(start) ^ want_start), "a different set"))
             return out, {"tiles": 0}
@@ -735,7 +780,7 @@ QUICK_PLAN = [
     ("npy", "f4", 8, 10), ("npy", "f8", 4, 4), ("npy", "u1", 5, 6), ("npy", "i2", 3, 3), ("npy", "i4", 4, 4),
     ("png", "rgba", 10, 10), ("png", "rgb", 5, 6), ("jpg", "rgb", 2, 2),
 ]
-PARALLEL_PLAN_QUICK = [("fits", "f4", "par2"), ("fits", "f4", "par3"), ("npy", "f4", "par2"), ("npy", "u1", "par3"),
+PARALLEL_PLAN_QUICK = [("npy", "i2", "twice-par2"), ("fits", "f4", "par2"), ("fits", "f4", "par3"), ("npy", "f4", "par2"), ("npy", "u1", "par3"),
                        ("png", "rgba", "par2"), ("png", "rgb", "cli-par2"), ("fits", "i2", "cli-par2"),
                        ("npy", "f8", "filter-par2"), ("fits", "f8", "par2"), ("png", "rgba", "par3")]
 
@@ -758,6 +803,9 @@ def build_cases(ctx, T, depth, plan, parallel_plan, mult=1, allow_keepu=True, re
         if run.startswith("filter"):
             new(fmt, dtag, run=run, stale_p=0.5, shape="one-leaf-per-slot")
             continue
+        if run.startswith("twice"):
+            new(fmt, dtag, run=run, stale_p=0.0, pleaf=0.7)
+            continue
         new(fmt, dtag, run=run, pleaf=rng.choice([0.5, 0.8, 1.0]), stale_p=0.5,
             shape=("full-then-four-partial" if can_u else "full-then-sparse") if run in ("par3", "par2") else None)
     for fmt, dtag, n2, n1 in plan:
@@ -770,6 +818,10 @@ def build_cases(ctx, T, depth, plan, parallel_plan, mult=1, allow_keepu=True, re
         if can_u and depth >= 2:
             new(fmt, dtag, shape="full-then-four-partial", run="serial", stale_p=0.3, pleaf=0.2)
             new(fmt, dtag, shape="full-then-four-partial", run="cli", stale_p=0.0, pleaf=0.0)
+        if CONFIGS[(fmt, dtag)] == "Int" and depth >= 1:
+            new(fmt, dtag, shape="int-low", run="serial", stale_p=0.0)
+        if (fmt, dtag) in (("npy", "f4"), ("fits", "f4"), ("png", "rgba"), ("npy", "u1"), ("fits", "i2")) and depth >= 1:
+            new(fmt, dtag, run="twice-serial", stale_p=0.0, pleaf=0.6, shape="right-half" if depth >= 2 and fmt == "npy" else None)
         if CONFIGS[(fmt, dtag)] == "Float":
             new(fmt, dtag, shape="zero-min", run="serial")
             new(fmt, dtag, shape="zero-max", run="cli")
@@ -829,12 +881,25 @@ def plan_binding(ctx, prop, plan, parallel_plan, only_fits=False, builder_runs=0
             for i, c in enumerate(fits_data[: builder_runs * (2 if depth == 2 else 1)]):
                 c["run"] = "builder-par2" if (c["run"] == "par2" or (i % 7 == 3 and depth == 2 and not quick)) else "builder"
         # quick tier: every children-first order for the first chunk, a window of 2 ready positions for the others
-        tasks.append({"name": "MC%sd%d" % (prop, depth), "T": T, "depth": depth, "cases": cases, "chunk": 50 if depth >= 2 else 120,
+        tasks.append({"name": "MC%sd%d" % (prop, depth), "T": T, "depth": depth, "cases": cases, "chunk": 58 if depth >= 2 else 130,
                       "first_chunk": (30 if quick else 45) if depth >= 2 else 120,
                       "later_window": 2 if (quick and depth >= 2) else None})
+    # depth 3 needs T = 8 for the lifting to stay exact through three levels; TLC explores the merge orders in which
+    # at most 2 ready positions run ahead of the walk order (all 2^16 interleavings of level 2 are out of reach).
+    # Sparse one-sided populations: empty sub-trees precede the populated tiles in walk order.
+    deep = []
+    cid = 5000
+    for fmt, dtag, run in ([("npy", "f4", "serial"), ("fits", "i2", "par2")] if quick else
+                           [("npy", "f4", "serial"), ("fits", "i2", "par2"), ("fits", "f4", "cli"), ("png", "rgba", "twice-serial"),
+                            ("npy", "u1", "par3"), ("fits", "f8", "twice-par2")]):
+        if only_fits and fmt != "fits":
+            continue
+        cid += 1
+        c = make_case(ctx.rng, cid, 8, 3, fmt, dtag, run=run, stale_p=0.0, keepu=False, shape="right-half", rewrite_p=rewrite_p)
+        deep.append(c)
+    if deep:
+        tasks.append({"name": "MC%sd3s" % prop, "T": 8, "depth": 3, "cases": deep, "chunk": 2 if quick else 3, "window": 1 if quick else 2})
     if not quick:
-        # depth 3 needs T = 8 for the lifting to stay exact through three levels; TLC explores the merge orders in which
-        # at most 2 ready positions run ahead of the walk order (all 2^16 interleavings of level 2 are out of reach)
         small = [(f, d, 0, 0) for f, d, _a, _b in plan if (f, d) in (("fits", "f4"), ("fits", "i2"), ("npy", "f4"), ("npy", "u1"),
                                                                      ("png", "rgba"), ("png", "rgb"))]
         cases = build_cases(ctx, 8, 3, small, [p for p in [("fits", "f4", "par2"), ("png", "rgba", "par3")] if p in parallel_plan or not only_fits],
@@ -1154,8 +1219,9 @@ def run(ctx):
         ctx.sample({"meta": _plain(meta), "given": [[g["pos"], g["stored"], g["raw"]] for g in rec["given"]][:8],
                     "stale": [t["pos"] for t in rec["init"] if t["pos"][0] < meta["depth"]],
                     "final": [[t["pos"], t["px"][0][0], t["rng"]] for t in rec["final"] if t["pos"][0] < meta["depth"]][:6]})
-    ctx.assume("integer tiles hold non-negative values and no entirely-zero leaf; non-zero integer / alpha values are >= 4^depth so that a "
-               "defined pixel never averages down to the undefined value 0 (DESIGN 5/C02 domain note)")
+    ctx.assume("integer tiles hold non-negative values (negative integers are clamped by the placement rule: DESIGN 5/C02 domain note); integer "
+               "data has no undefined value, so all-zero tiles and low counts are in scope and such parents must exist; non-zero colour / "
+               "alpha values are >= 4^depth so that a defined pixel's alpha never averages down to 0 = undefined")
     ctx.assume("+/-inf pixels are defined values: a block holding +inf (or -inf) averages to +inf (-inf); a block holding both has no mean and "
                "the output pixel is undefined (IEEE inf - inf), the one case where an output is undefined although not all four inputs are; "
                "pyramids in which a whole tile vanishes only through such cancellation are outside the domain (skipped by the spec's Init)")
